@@ -74,6 +74,8 @@ func (b *Built) build(e *Expr, h *Hooks) parsley.Parser {
 		if h.Leaf != nil {
 			p = h.Leaf(e, p)
 		}
+	case OpKw:
+		p = terminal.Op(e.S)
 	case OpEmpty:
 		p = parser.Empty()
 	case OpEnd:
@@ -154,7 +156,7 @@ func (b *Built) build(e *Expr, h *Hooks) parsley.Parser {
 	if h.Around != nil {
 		p = h.Around(e, p)
 	}
-	if h.ShareExprs && h.NameOf == nil && e.Op != OpRune && e.Op != OpEmpty && e.Op != OpEnd && e.Op != OpNT {
+	if h.ShareExprs && h.NameOf == nil && e.Op != OpRune && e.Op != OpKw && e.Op != OpEmpty && e.Op != OpEnd && e.Op != OpNT {
 		if b.shared == nil {
 			b.shared = map[string]parsley.Parser{}
 		}
